@@ -10,7 +10,7 @@ from rtc import dag, progs
 from vf.bounded import Check
 
 ID = "C09"
-LEVEL = "exploration"
+LEVEL = "other"
 LEVEL_TEXT = ("Bounded twin contract on the real Pipeline: a cached pipeline (every cache type, every sampled subset of "
               "cached functions) and an uncached twin are driven through the same history of calls (root-only and with "
               "supplied intermediates, with/without full_output), update_defaults / update_bound / replace mutations and "
@@ -31,11 +31,22 @@ CACHES = ("simple", "lru", "hybrid", "disk")
 
 
 def registry():
-    return {}
+    from contracts import misc
+    return {c.short: c for c in misc.ALL}
+
+
+def _cck_gen(rng, tier):
+    for out in ("c", ("c", "d")):
+        for roots in [(), ("a",), ("a", "b"), ("b", "a", "x")]:
+            for present in [(), ("a",), ("a", "b"), ("a", "b", "x", "extra")]:
+                yield {"output_name": out, "kwargs": {k: f"v_{k}" if k != "b" else [1, 2] for k in present},
+                       "root_args": roots}
 
 
 def proof_items():
-    return []
+    from contracts import misc
+    from vf.driver import ProofItem
+    return [ProofItem(misc.compute_cache_key, gen=_cck_gen)]
 
 
 def _history(rng, d, length):
